@@ -200,6 +200,9 @@ class SimTransport(asyncio.Transport):
             return
         if self.write_fail is not None:
             how, exc = self.write_fail
+            if how == "raise_once":
+                self.write_fail = None
+                raise exc
             if how == "raise":
                 raise exc
             self._force_close(exc)
